@@ -7,7 +7,7 @@ from collections import Counter
 
 HARNESSES = [("http/tokenV2", ["http/tokenV2/zz_verif_c17_test.go", "http/tokenV2/zz_verif_export.go"], "c17"),
              ("auth/api/iam", ["auth/api/iam/zz_verif_c17_test.go", "http/tokenV2/zz_verif_export.go"], "c17jar"),
-             ("vcr/verifier", ["vcr/verifier/zz_verif_c17_test.go", "http/tokenV2/zz_verif_export.go"], "c17vc"),
+             ("vcr/verifier", ["vcr/verifier/zz_verif_c17_test.go", "vcr/verifier/zz_verif_c17fold_test.go", "http/tokenV2/zz_verif_export.go"], "c17vc"),
              ("auth/services/oauth", ["auth/services/oauth/zz_verif_c17_test.go", "http/tokenV2/zz_verif_export.go"], "c17az"),
              ("vcr/signature/proof", ["vcr/signature/proof/zz_verif_c17_test.go"], "c17ld"),
              ("network/dag", ["network/dag/zz_verif_c17_test.go"], "c17dag")]
@@ -116,13 +116,15 @@ def bytes_oracle(op, line, derived):
 
 def run(ctx):
     facts = ctx.facts() or {}
-    thms = ctx.build_and_audit(["NutsProofs.Props.C17", "NutsProofs.Props.C17Framing"])
+    thms = ctx.build_and_audit(["NutsProofs.Props.C17", "NutsProofs.Props.C17Framing", "NutsProofs.Props.C17Fold"])
     required = ["allowed_lists_asymmetric", "accept_parseJWT", "accept_parseJWS", "accept_dpop", "accept_dagTx", "accept_dagTx_partial", "accept_dagTx_of_fact",
                 "fact_dag_rejects_private_jwk", "fact_dag_framing_body", "fact_dag_kid_xor_jwk", "fact_alg_fits_key", "fits_is_the_algorithm_of_the_curve", "fact_verifiers_hold_no_key_state", "key_is_current_resolution",
                 "accept_apiToken", "accept_jar", "accept_vcJwt", "accept_vcJsonLd", "fact_vcJsonLd", "fact_wiring", "accept_authzV1", "accept_ldProof", "fact_authzV1",
                 "authzV1_without_kid_check_accepts_foreign_key", "header_keys_ignored", "apiToken_key_header_rejected",
                 "parseJWS_splitCompact_mode_accepts_two_uncovered", "dagTx_without_private_check_accepts_private_jwk",
                 "apiToken_atLeastOne_rule_accepts_two_signatures",
+                "fact_fold_guard", "fact_caseVariantMember", "fold_s_k_orbits", "fold_ascii", "toLower_misses_long_s", "ambiguousMember_refuses_every_conflated_pair",
+                "accept_vcJsonLdDoc", "toLower_guard_accepts_conflated_pair",
                 "fact_dag_framing_consts", "fact_alphabet", "fact_signatureAlgorithm", "rawurl_roundtrip", "encode_is_canonical", "canonical_segment_unique",
                 "canonical_segment_alphabet", "compact_shape", "compact_reference_unique", "compact_reference_unique_ref", "canonical_compact_passes",
                 "parseTxFraming_pass", "accept_dagTx_bytes", "accepted_dagTx_one_reference", "derived_alg_listed", "derived_alg_fits_nist", "accept_ldProof_derived",
@@ -156,7 +158,7 @@ def run(ctx):
     allowed = {"parsejwt": facts.get("supportedAlgs", []), "parsejws": facts.get("supportedAlgs", []), "dpop": facts.get("supportedAlgs", []),
                "jar": facts.get("supportedAlgs", []), "vcjwt": facts.get("supportedAlgs", []),
                "authzv1": facts.get("supportedAlgs", []), "introspect": facts.get("supportedAlgs", []),
-               "ldproof": facts.get("keyDerivedAlgs", []), "vcld": facts.get("keyDerivedAlgs", []),
+               "ldproof": facts.get("keyDerivedAlgs", []), "vcld": facts.get("keyDerivedAlgs", []), "vcldfold": facts.get("keyDerivedAlgs", []),
                "dagtx": facts.get("dagAllowedAlgs", []), "apitoken": (facts.get("apiPolicy") or {}).get("acceptableAlgs", [])}
     table = {}
     distinct = set()
@@ -168,7 +170,7 @@ def run(ctx):
     replay_c = None
     if ctx.replay:
         txt = open(ctx.replay).read()
-        replay_c = ("c17dag" if ('"hex"' in txt or '"sigalg"' in txt) else "c17jar" if '"jar"' in txt else "c17vc" if ('"vcjwt"' in txt or '"vcld"' in txt) else
+        replay_c = ("c17dag" if ('"hex"' in txt or '"sigalg"' in txt) else "c17jar" if '"jar"' in txt else "c17vc" if ('"vcjwt"' in txt or '"vcld"' in txt or '"vcldfold"' in txt or '"ambig"' in txt) else
                     "c17az" if ('"authzv1"' in txt or '"introspect"' in txt) else "c17ld" if '"ldproof"' in txt else "c17")
     for (pkg, files, name) in HARNESSES:
         if replay_c and replay_c != name:
@@ -199,6 +201,17 @@ def run(ctx):
             if i >= len(ops) or not ops[i]:
                 continue
             op = json.loads(ops[i])
+            if op.get("op") == "ambig":
+                table.setdefault("ambig", Counter())[f"{line}:conflated={op.get('conflated')}"] += 1
+                distinct.add(("ambig", line, op.get("conflated")))
+                if line == "clean" and op.get("conflated"):
+                    o_bad += 1
+                    sig = "C17:vcld:conflated-members-not-refused"
+                    if sig not in seen_sig:
+                        seen_sig[sig] = 1 if ctx.violation(sig, f"ambiguousMember found nothing in {json.dumps(op['doc'], ensure_ascii=True)[:400]} although one object holds two members "
+                                                           "that encoding/json reads as the same member (names equal under Unicode simple case folding)", "ambig-conflated-members-not-refused.jsonl", ops[i]) else 0
+                    o_unsuppressed += seen_sig[sig]
+                continue
             if op.get("op") in ("b64", "framing", "framingtx", "sigalg"):
                 table.setdefault(op["op"], Counter())[line.split(":")[0] if op["op"] == "b64" else line] += 1
                 distinct.add((op["op"], op["name"].split("-", 1)[-1]))
@@ -234,6 +247,11 @@ def run(ctx):
             v = verdict(c, cls, halg, op.get("by", ""), line, allowed, op.get("env"))
             # DAG transactions are content-addressed by their bytes: what is accepted must be a JSON serialisation or
             # byte-identical to the canonical compact serialisation (verdict computed by the harness's own re-encode-and-compare)
+            # JSON-LD: what the node READS must be what was SIGNED. A member that encoding/json reads as another member but that the
+            # canonicalisation dropped (undefined term) is attacker-chosen content under the issuer's signature
+            if not v and c == "vcldfold" and line == "accept" and (op.get("reads_differ") or op.get("conflated")):
+                v = ("unsigned-member-read", "a JSON-LD document was accepted in which an object holds two members that encoding/json conflates (names equal under Unicode "
+                     f"simple case folding, e.g. U+017F / U+212A); the node reads another value than the signed one: {bool(op.get('reads_differ'))}")
             if not v and c == "vcld" and line == "accept" and op.get("v", {}).get("nproofs") != 1:
                 v = ("proof-set", f"a JSON-LD document with {op['v'].get('nproofs')} proofs was accepted (exactly one signature is required)")
             # the verification key is what the protocol's key source returns NOW: an accept although the (current) lookup failed means a
@@ -267,7 +285,7 @@ def run(ctx):
         else:
             ctx.oblige(f"correspondence:{name}:model=impl", True, f"{len(impl)} lines equal")
     if not ctx.replay:
-        for c in ("parsejwt", "parsejws", "dpop", "dagtx", "apitoken", "jar", "vcjwt", "authzv1", "introspect", "ldproof", "vcld"):
+        for c in ("parsejwt", "parsejws", "dpop", "dagtx", "apitoken", "jar", "vcjwt", "authzv1", "introspect", "ldproof", "vcld", "vcldfold"):
             ctx.oblige(f"non-vacuous:{c}-accepts-its-valid-token(impl)", accepted_valid[c] > 0, str(dict(accepted_valid)))
         ctx.oblige("non-vacuous:framingtx-accepts-the-canonical-compact-transaction(impl)", accepted_valid["framingtx"] > 0, str(dict(accepted_valid)))
         ctx.cov["json_serialisations_of_a_signed_transaction_accepted"] = accepted_valid["framingtx-json"]
